@@ -475,6 +475,8 @@ def templates() -> Dict[str, Any]:
     reg("CCNIB", 1, lambda i: [{}], lambda i: [P("CODED-CONST", f"nl{i}", dct=std("A_UINT32", 4), value=0xA, bit=0),
                                                P("CODED-CONST", f"nh{i}", dct=std("A_UINT32", 4), value=0x5, bit=4)], rel=[(0, 0), (1, 0)])
     reg("CCMM", None, lambda i: [{}], lambda i: [P("CODED-CONST", f"cm{i}", dct={"k": "MINMAX", "base": "A_ASCIISTRING", "min": 1, "max": 4, "term": "ZERO"}, value="AB")])
+    reg("CCME", None, lambda i: [{}], lambda i: [P("CODED-CONST", f"ce{i}", dct={"k": "MINMAX", "base": "A_ASCIISTRING", "min": 1, "max": 4, "term": "END-OF-PDU"}, value="AB")],
+        last_only=True)  # a constant that ends the message (and is part of its constant prefix)
     reg("CNV", 1, lambda i: [{f"vn{i}": 0}, {f"vn{i}": 3}, {f"vn{i}": 15}],  # a constant nibble and a free nibble in one byte
         lambda i: [P("CODED-CONST", f"cn{i}", dct=std("A_UINT32", 4), value=0x5, bit=4), P("VALUE", f"vn{i}", dop="u4", bit=0)], rel=[(0, 0), (1, 0)])
     reg("PC", 1, lambda i: [{}], lambda i: [P("PHYS-CONST", f"pc{i}", dop="i8lin", const=7)])
@@ -586,7 +588,7 @@ def templates() -> Dict[str, Any]:
 
 
 SIGMA_FULL = ["CC8", "CC16L", "CCNIB", "PC", "V8", "V12b", "V8b4", "VF32", "SLK", "VLIN", "VDEF", "VTT", "RES8", "RES4", "SYS", "LK", "TKS", "TKSROW", "SFLAT",
-              "SSUB", "SNEST", "SSIZED", "SF2", "SF2p", "DL1", "DL2", "EOP", "EMLAST", "EMCC", "MUXd", "MUXn", "MUXe", "MUXf", "SDYN", "EOPD", "DLD", "EMD", "MUXD", "EOPDE", "EOPLK", "SKB2", "SKB4", "VLDEF", "DTC", "DTCENV", "BZ", "BEOP", "LEAD", "SFV", "EMT", "EMTC", "TKS2", "CCMM", "LKSAME", "LKSAMI", "RES72", "MUXo", "TKSAME", "DTCL", "TKSN", "RES68b", "RES8b4", "DTCENVR", "CNV"]
+              "SSUB", "SNEST", "SSIZED", "SF2", "SF2p", "DL1", "DL2", "EOP", "EMLAST", "EMCC", "MUXd", "MUXn", "MUXe", "MUXf", "SDYN", "EOPD", "DLD", "EMD", "MUXD", "EOPDE", "EOPLK", "SKB2", "SKB4", "VLDEF", "DTC", "DTCENV", "BZ", "BEOP", "LEAD", "SFV", "EMT", "EMTC", "TKS2", "CCMM", "CCME", "LKSAME", "LKSAMI", "RES72", "MUXo", "TKSAME", "DTCL", "TKSN", "RES68b", "RES8b4", "DTCENVR", "CNV"]
 SIGMA_SYS = ["SYTS", "SYMINU", "SYHOUR", "SYTZ", "SYDAY", "SYWEEK", "SYMONT", "SYYEAR", "SYCENT", "SYTEST", "SYUSER"]
 SIGMA_3 = ["CC8", "V8", "V12b", "V8b4", "VDEF", "RES8", "LK", "TKS", "SFLAT", "SSIZED", "SF2p", "DL1", "EOP", "MUXd", "DTCENV", "BZ", "SDYN", "EOPD"]
 SIGMA_4 = ["CC8", "V12b", "SSIZED", "DL1", "MUXd", "BZ"]
@@ -800,6 +802,14 @@ def layer_b_units(quick: bool) -> List[Tuple[str, List[Dict[str, Any]]]]:
     methods.append(("u8", "A_FLOAT64", {"cat": "LINEAR", "i2p": [{"num": [t40, -3 * t40], "den": [t41]}]}))
     methods.append(("u8", "A_FLOAT64", {"cat": "SCALE-LINEAR", "i2p": [{"lo": cl(0), "hi": cl(100), "num": [0, t40], "den": [t40]},
                                                                    {"lo": cl(100), "hi": cl(255), "num": [-100 * t40, 2 * t40], "den": [t40]}]}))
+    # explicit inverse scales of which the first covers everything and a later one disagrees with it: the scales are consulted
+    # in the order listed, so what was decoded from a PDU must encode back to it (judged by C03 without the reference)
+    inf = {"v": None, "type": "INFINITE"}
+    for pt in ("A_INT32", "A_FLOAT32"):
+        for b in (10, 40):
+            methods.append(("u8", pt, {"cat": "SCALE-RAT-FUNC", "i2p": [{"lo": cl(0), "hi": cl(255), "num": [0, 1], "den": [1]}],
+                                       "p2i": [{"lo": cl(0), "hi": cl(255), "num": [0, 1], "den": [1]},
+                                               {"lo": cl(b), "hi": inf, "num": [-b // 2, 1], "den": [1]}]}))
     progs = []
     for idx, (it, pt, cm) in enumerate(methods):
         dct = INTERNAL_TYPES[it]
